@@ -141,6 +141,11 @@ def pool():
     add('empty-defaults', data, lambda: {'l': Coalesce('zz', default=[]), 'd': Coalesce('zz', default={}), 'n': Coalesce('zz', default=[[], {}]),
                                          's': (S(acc=[]), S.acc), 'm': Match(Switch([(M == 'never', Val(1))], default=[]))})
     add('match-optional-default', lambda: {'id': 1}, lambda: Match({'id': int, Optional('tags', default=[]): list}))
+    # a list / dict literal in argument position one of whose elements FAILS (the failure absorbed by an enclosing Coalesce or
+    # not), on a spec object that is evaluated again and again
+    add('arg-literal-failing-element', data, lambda: Coalesce(Call(_collect, args=([T['a']['d'], T['zz_missing']],)), default='recovered'))
+    add('arg-literal-failing-element-dict', data, lambda: Coalesce((S(v={'ok': T['a']['d'], 'bad': T['zz_missing']}), S.v), default='recovered'))
+    add('arg-literal-failing-element-raises', data, lambda: T['a']['d'].join([T['a']['d'], T['zz_missing']]))
     # Vars with keyword defaults only; written and read within the call
     add('vars-kw', data, lambda: (S(v=Vars(last='init')), {'before': S.v.last, 'write': ('a.d', A.v.last), 'after': S.v.last}))
     add('vars-empty', data, lambda: (S(v=Vars()), {'before': Coalesce(S.v.last, default='unset'), 'write': ('a.d', A.v.last), 'after': S.v.last}))
